@@ -588,6 +588,10 @@ fn ev(e: &Ex, mu: &Mu, ds: &Ds, g: &Option<T>) -> Result<Result<T, ()>, OErr> {
                     if let (Some(n), Some(m)) = (numeric(&x), numeric(&y)) { Ok(tbool(nv_cmp(&n, &m) == Some(std::cmp::Ordering::Equal))) }
                     else if let (Some(s), Some(t)) = (plain_string(&x), plain_string(&y)) { Ok(tbool(s == t)) }
                     else if let (Some(Some(p)), Some(Some(q))) = (boolean(&x), boolean(&y)) { Ok(tbool(p == q)) }
+                    // rdf:langString is a datatype the engine supports: its values are (string, lower-cased tag) pairs, so two
+                    // language-tagged strings are equal or DIFFERENT, never an error (the error of RDFterm-equal is for literals
+                    // of unsupported datatypes, 17.4.1.7 note); same reading as coq/C13/Eval.v (SStr _ (Some _))
+                    else if let (T::Lang(s1, t1), T::Lang(s2, t2)) = (&x, &y) { Ok(tbool(s1 == s2 && t1.eq_ignore_ascii_case(t2))) }
                     else if x == y { Ok(tbool(true)) }
                     else if x.is_literal() && y.is_literal() { Err(()) }
                     else { Ok(tbool(false)) }
